@@ -595,6 +595,15 @@ func (e *specEnv) call(s *SExpr) Val {
 			i.T, vc.intSort(), j.T, vc.intSort(),
 			vc.cmp("<=", vc.intLit(0), i.T, true), vc.cmp("<", i.T, j.T, true), vc.cmp("<", j.T, vc.slLen(sv), true),
 			vc.slArr(sv), i.T, vc.slArr(sv), j.T))
+	case "held":
+		// held(x.mu): the lock denoted by this expression text is held on this path
+		if len(args) != 1 {
+			e.fail("held(lock expression)")
+		}
+		if e.st.held != nil && e.st.held[exprText(args[0])] {
+			return boolVal("true")
+		}
+		return boolVal("false")
 	case "pointee_zero":
 		// pointee_zero(p): the object the pointer argument p refers to holds the zero value of its type
 		// (p is an interface-typed parameter; the static type is taken from the call site)
